@@ -53,7 +53,7 @@ theorem pull_delivers {d d' : Dec} {bytes p : List UInt8} (h : Dec.Delivers d by
   rw [pull_quiet hq]
   simp [pull, hp, Dec.borrowBuf, Dec.isDone, hst, hdata]
 
-theorem take_done (k : Nat) : ∀ (it : DecIter), it.done = true → it.take k = List.replicate k none := by
+theorem take_doneR (k : Nat) : ∀ (it : DecIter), it.done = true → it.take k = List.replicate k none := by
   induction k with
   | zero => intro it _; rfl
   | succ k ih =>
@@ -61,10 +61,10 @@ theorem take_done (k : Nat) : ∀ (it : DecIter), it.done = true → it.take k =
     simp only [take, next, h, if_true, List.replicate_succ]
     rw [ih it h]
 
-theorem next_of_not_done {it : DecIter} (h : it.done = false) : it.next = pull it.dec it.bytes := by
+theorem next_of_not_doneR {it : DecIter} (h : it.done = false) : it.next = pull it.dec it.bytes := by
   simp [next, h]
 
-theorem take_succ (it : DecIter) (n : Nat) : it.take (n + 1) = it.next.2 :: it.next.1.take n := rfl
+theorem take_succR (it : DecIter) (n : Nat) : it.take (n + 1) = it.next.2 :: it.next.1.take n := rfl
 
 /-- the message, then `None` forever -/
 theorem take_delivers {cap : Option Nat} {d' : Dec} {bytes p : List UInt8}
@@ -73,20 +73,20 @@ theorem take_delivers {cap : Option Nat} {d' : Dec} {bytes p : List UInt8}
   obtain ⟨_, _, _, _, _, _, hst, _⟩ := id h
   have h1 : (DecIter.new cap bytes).next =
       ({ dec := d', bytes := [], done := false }, some (Item.ok p)) := by
-    rw [next_of_not_done rfl]
+    rw [next_of_not_doneR rfl]
     exact pull_delivers h
-  rw [take_succ, h1]
+  rw [take_succR, h1]
   congr 1
   cases k with
   | zero => rfl
   | succ k =>
     have h2 : ({ dec := d', bytes := [], done := false } : DecIter).next =
         ({ dec := (d'.reset).1, bytes := [], done := true }, none) := by
-      rw [next_of_not_done rfl]
+      rw [next_of_not_doneR rfl]
       simp [pull, Dec.finalize, hst]
-    rw [take_succ, h2, List.replicate_succ]
+    rw [take_succR, h2, List.replicate_succ]
     simp only
-    rw [take_done k _ rfl]
+    rw [take_doneR k _ rfl]
 
 end DecIter
 
